@@ -6,7 +6,7 @@ from ..poly import PW, Poly, Rat, as_poly, const, fld, sym
 from ..pwtools import pw_equal_mod_ties
 from ..regions import Box, bound, Bd
 from ..store import full_box, interior_point, _DEPS, dep_symbol, merge_cells
-from ..values import Unsupported
+from ..values import RaisedInAnalysed, Unsupported
 from .common import CATALOGUE, entry_summary, find_entry, interiors, short, pin_indices, refine
 from .simtools import sim_configs, stepped_sim
 
@@ -303,6 +303,18 @@ def run(S, tier, rep):
         cfgs += cs
     parallel_over(S, rep, "sa.props.c14", "sim_config", cfgs)
     kernel_level(S, rep, tier)
+    # the Poisson stage: the Green's function the unbounded solver convolves with must itself have no preferred axis
+    from .c03 import isotropic, sampled_kernel
+    for dim in (2, 3):
+        try:
+            k = sampled_kernel(S, dim)
+        except RaisedInAnalysed as ex:
+            k = None
+        ok = k is not None and isotropic(k, dim)
+        rep.ob("C14.poisson", "%dD unbounded solver: Green's function symmetric under relabelling the axes" % dim, ok,
+               "the sampled kernel has no closed form" if k is None else "the sampled kernel treats the axes differently: %s" % short(k, 300) if not ok
+               else "invariant under all %d permutations of (axis index, axis size)" % (2 if dim == 2 else 6), key="C14.poisson|%dD" % dim)
     rep.note("group_generators", {2: [T.describe() for T in grid_group(2)], 3: [T.describe() for T in grid_group(3)]})
     rep.require_min("C14.step", 150)
     rep.require_min("C14.kernel", 150)
+    rep.require_min("C14.poisson", 2)
